@@ -30,7 +30,9 @@ func Backs(e *convtab.Entry) []*convtab.Entry {
 	var out []*convtab.Entry
 	for _, ti := range kit.Builtins {
 		if ti.Kind == e.S.Kind && ti.Bits == e.S.Bits {
-			out = append(out, convtab.Lookup(e.D.Name, ti.Name))
+			if b := convtab.Lookup(e.D.Name, ti.Name); b != nil { // a few named destinations have no way back in the table
+				out = append(out, b)
+			}
 		}
 	}
 	return out
@@ -107,7 +109,7 @@ func Check(c *Case) (res kit.Result) {
 		}
 	}
 	var msg string
-	if c.Pad < 0 || c.Pad > 1<<20 || c.Fix < 0 || c.Fix > 4 || c.Ch < 0 || c.Ch > 64 {
+	if c.Pad < 0 || c.Pad > 1<<20 || c.Fix < 0 || c.Fix > 5 || c.Ch < 0 || c.Ch > 64 {
 		return
 	}
 	if c.Pad > len(c.Amps) {
@@ -158,7 +160,7 @@ func Gen(t *rapid.T) *Case {
 	}
 	c := &Case{S: e.S.Name, D: e.D.Name}
 	c.Pad = kit.GenPad(t)
-	c.Fix = rapid.IntRange(0, 4).Draw(t, "fix")
+	c.Fix = rapid.IntRange(0, 5).Draw(t, "fix")
 	c.Ch = kit.GenNumCh(t, c.Pad)
 	n := rapid.IntRange(1, 24).Draw(t, "n")
 	for i := 0; i < n; i++ {
